@@ -419,3 +419,274 @@ pub(crate) fn h_cleanup_unit_chain() {
     vrt_check(file == once, "C10 running cleanup twice gives the same result as running it once");
     vrt_check(xref_errors(&file) == 0, "C10 a file whose references all resolve still resolves after cleanup");
 }
+
+// ------------------------------------------------------------------ C08 / C09: merge
+
+/// template expansion: `@name` -> name + sfx (a global element name), `~` -> lid (content marker / long identifier)
+fn expand(tpl: &str, sfx: &str, lid: &str) -> String {
+    let b = tpl.as_bytes();
+    let mut out = String::new();
+    let mut i = 0;
+    while i < b.len() {
+        if b[i] == b'@' {
+            i += 1;
+            while i < b.len() && (b[i].is_ascii_alphanumeric() || b[i] == b'_') {
+                out.push(b[i] as char);
+                i += 1;
+            }
+            out.push_str(sfx);
+        } else if b[i] == b'~' {
+            out.push_str(lid);
+            i += 1;
+        } else {
+            out.push(b[i] as char);
+            i += 1;
+        }
+    }
+    out
+}
+
+/// a consistent module that populates the reference sites of the grammar (names marked with @)
+const MERGE_T: &str = "ASAP2_VERSION 1 71 /begin PROJECT p \"\" /begin MODULE m \"\"
+/begin MOD_PAR \"\" /begin MEMORY_SEGMENT @seg \"~\" DATA FLASH INTERN 0 0 -1 -1 -1 -1 -1 /end MEMORY_SEGMENT /end MOD_PAR
+/begin COMPU_METHOD @cm \"~\" TAB_INTP \"%6.3\" \"\" COMPU_TAB_REF @ct REF_UNIT @un STATUS_STRING_REF @cv /end COMPU_METHOD
+/begin COMPU_TAB @ct \"~\" TAB_INTP 1 1 1 /end COMPU_TAB
+/begin COMPU_VTAB @cv \"~\" TAB_VERB 1 1 \"x\" /end COMPU_VTAB
+/begin UNIT @un \"~\" \"\" DERIVED REF_UNIT @un2 /end UNIT
+/begin UNIT @un2 \"~\" \"\" DERIVED /end UNIT
+/begin RECORD_LAYOUT @rl FNC_VALUES ~ UBYTE ROW_DIR DIRECT AXIS_PTS_X 1 UBYTE INDEX_INCR DIRECT /end RECORD_LAYOUT
+/begin MEASUREMENT @ms \"~\" UBYTE @cm 0 0 0 255 REF_MEMORY_SEGMENT @seg /begin VIRTUAL @ms2 /end VIRTUAL /end MEASUREMENT
+/begin MEASUREMENT @ms2 \"~\" UBYTE NO_COMPU_METHOD 0 0 0 255 /end MEASUREMENT
+/begin AXIS_PTS @ap \"~\" 0 @ms @rl 0 @cm 2 0 255 /end AXIS_PTS
+/begin CHARACTERISTIC @ch \"~\" CURVE 0 @rl 0 @cm 0 255
+ /begin AXIS_DESCR COM_AXIS @ms @cm 2 0 255 AXIS_PTS_REF @ap /end AXIS_DESCR
+ COMPARISON_QUANTITY @ms
+ /begin DEPENDENT_CHARACTERISTIC \"f\" @ch2 /end DEPENDENT_CHARACTERISTIC
+ /begin MAP_LIST @ch2 /end MAP_LIST
+ /begin VIRTUAL_CHARACTERISTIC \"f\" @ch2 /end VIRTUAL_CHARACTERISTIC
+ REF_MEMORY_SEGMENT @seg
+/end CHARACTERISTIC
+/begin CHARACTERISTIC @ch2 \"~\" CURVE 0 @rl 0 NO_COMPU_METHOD 0 255
+ /begin AXIS_DESCR CURVE_AXIS NO_INPUT_QUANTITY NO_COMPU_METHOD 2 0 255 CURVE_AXIS_REF @ch /end AXIS_DESCR
+/end CHARACTERISTIC
+/begin TYPEDEF_AXIS @ta \"~\" @ms @rl 0 @cm 2 0 255 /end TYPEDEF_AXIS
+/begin TYPEDEF_MEASUREMENT @tm \"~\" UBYTE @cm 0 0 0 255 /end TYPEDEF_MEASUREMENT
+/begin TYPEDEF_CHARACTERISTIC @tc \"~\" CURVE @rl 0 @cm 0 255
+ /begin AXIS_DESCR STD_AXIS @ms @cm 2 0 255 /end AXIS_DESCR
+/end TYPEDEF_CHARACTERISTIC
+/begin TYPEDEF_STRUCTURE @ts \"~\" 4 /begin STRUCTURE_COMPONENT c1 @tm 0 /end STRUCTURE_COMPONENT /end TYPEDEF_STRUCTURE
+/begin INSTANCE @inst \"~\" @ts 0x100 /begin OVERWRITE c1 0 CONVERSION @cm INPUT_QUANTITY @ms /end OVERWRITE /end INSTANCE
+/begin FRAME @fr \"~\" 1 2 FRAME_MEASUREMENT @ms /end FRAME
+/begin TRANSFORMER @tr \"~\" \"a\" \"b\" 1 ON_CHANGE @tr2
+ /begin TRANSFORMER_IN_OBJECTS @ch /end TRANSFORMER_IN_OBJECTS /begin TRANSFORMER_OUT_OBJECTS @ch2 /end TRANSFORMER_OUT_OBJECTS
+/end TRANSFORMER
+/begin TRANSFORMER @tr2 \"~\" \"a\" \"b\" 1 ON_CHANGE NO_INVERSE_TRANSFORMER /end TRANSFORMER
+/end MODULE /end PROJECT";
+
+/// elements that are merged by name (FUNCTION, GROUP) or moved all-or-nothing; kept out of the all-conflict template
+const MERGE_T2: &str = "ASAP2_VERSION 1 71 /begin PROJECT p \"\" /begin MODULE m \"\"
+/begin MEASUREMENT @ms \"~\" UBYTE NO_COMPU_METHOD 0 0 0 255 /end MEASUREMENT
+/begin RECORD_LAYOUT @rl FNC_VALUES 1 UBYTE ROW_DIR DIRECT /end RECORD_LAYOUT
+/begin CHARACTERISTIC @ch \"~\" VALUE 0 @rl 0 NO_COMPU_METHOD 0 255 /end CHARACTERISTIC
+/begin FUNCTION fn1 \"\" /begin IN_MEASUREMENT @ms /end IN_MEASUREMENT /begin LOC_MEASUREMENT @ms /end LOC_MEASUREMENT
+ /begin OUT_MEASUREMENT @ms /end OUT_MEASUREMENT /begin DEF_CHARACTERISTIC @ch /end DEF_CHARACTERISTIC
+ /begin REF_CHARACTERISTIC @ch /end REF_CHARACTERISTIC /begin SUB_FUNCTION fn2 /end SUB_FUNCTION /end FUNCTION
+/begin FUNCTION fn2 \"\" /end FUNCTION
+/begin GROUP g1 \"\" ROOT /begin REF_CHARACTERISTIC @ch /end REF_CHARACTERISTIC /begin REF_MEASUREMENT @ms /end REF_MEASUREMENT
+ /begin FUNCTION_LIST fn1 /end FUNCTION_LIST /begin SUB_GROUP g2 /end SUB_GROUP /end GROUP
+/begin GROUP g2 \"\" /end GROUP
+/begin USER_RIGHTS usr /begin REF_GROUP g1 /end REF_GROUP /end USER_RIGHTS
+/begin VARIANT_CODING /begin VAR_CRITERION crit \"\" v1 VAR_MEASUREMENT @ms /end VAR_CRITERION
+ /begin VAR_CHARACTERISTIC @ch crit /end VAR_CHARACTERISTIC /end VARIANT_CODING
+/end MODULE /end PROJECT";
+
+fn load_ok(text: &str) -> A2lFile {
+    load_from_string(text, None, false).unwrap().0
+}
+
+/// every element of `exp` must be present in `res` under its name with equal content (== ignores layout)
+fn contains_all(res: &Module, exp: &Module) {
+    for e in exp.unit.iter() { vrt_soft_check(res.unit.get(e.get_name()) == Some(e), "C09 UNIT from B is represented with its references renamed consistently"); }
+    for e in exp.compu_tab.iter() { vrt_soft_check(res.compu_tab.get(e.get_name()) == Some(e), "C08 COMPU_TAB from B is represented"); }
+    for e in exp.compu_vtab.iter() { vrt_soft_check(res.compu_vtab.get(e.get_name()) == Some(e), "C08 COMPU_VTAB from B is represented"); }
+    for e in exp.compu_method.iter() { vrt_soft_check(res.compu_method.get(e.get_name()) == Some(e), "C09 COMPU_METHOD from B is represented with its references renamed consistently"); }
+    for e in exp.record_layout.iter() { vrt_soft_check(res.record_layout.get(e.get_name()) == Some(e), "C08 RECORD_LAYOUT from B is represented"); }
+    for e in exp.measurement.iter() { vrt_soft_check(res.measurement.get(e.get_name()) == Some(e), "C09 MEASUREMENT from B is represented with its references renamed consistently"); }
+    for e in exp.axis_pts.iter() { vrt_soft_check(res.axis_pts.get(e.get_name()) == Some(e), "C09 AXIS_PTS from B is represented with its references renamed consistently"); }
+    for e in exp.characteristic.iter() { vrt_soft_check(res.characteristic.get(e.get_name()) == Some(e), "C09 CHARACTERISTIC from B is represented with its references renamed consistently"); }
+    for e in exp.typedef_axis.iter() { vrt_soft_check(res.typedef_axis.get(e.get_name()) == Some(e), "C09 TYPEDEF_AXIS from B is represented with its references renamed consistently"); }
+    for e in exp.typedef_measurement.iter() { vrt_soft_check(res.typedef_measurement.get(e.get_name()) == Some(e), "C09 TYPEDEF_MEASUREMENT from B is represented with its references renamed consistently"); }
+    for e in exp.typedef_characteristic.iter() { vrt_soft_check(res.typedef_characteristic.get(e.get_name()) == Some(e), "C09 TYPEDEF_CHARACTERISTIC from B is represented with its references renamed consistently"); }
+    for e in exp.typedef_structure.iter() { vrt_soft_check(res.typedef_structure.get(e.get_name()) == Some(e), "C09 TYPEDEF_STRUCTURE from B is represented with its references renamed consistently"); }
+    for e in exp.instance.iter() { vrt_soft_check(res.instance.get(e.get_name()) == Some(e), "C09 INSTANCE from B is represented with its references renamed consistently"); }
+    for e in exp.frame.iter() { vrt_soft_check(res.frame.get(e.get_name()) == Some(e), "C09 FRAME from B is represented with its references renamed consistently"); }
+    for e in exp.transformer.iter() { vrt_soft_check(res.transformer.get(e.get_name()) == Some(e), "C09 TRANSFORMER from B is represented with its references renamed consistently"); }
+    if let (Some(rp), Some(ep)) = (&res.mod_par, &exp.mod_par) {
+        for e in ep.memory_segment.iter() { vrt_soft_check(rp.memory_segment.get(e.get_name()) == Some(e), "C08 MEMORY_SEGMENT from B is represented"); }
+    }
+}
+
+fn unique_names(m: &Module) {
+    let objs = m.objects();
+    vrt_check(objs.len() == m.measurement.len() + m.characteristic.len() + m.axis_pts.len() + m.blob.len() + m.instance.len(), "C08 object list sizes are consistent");
+    let mut seen: Vec<String> = Vec::new();
+    for o in objs.iter() {
+        vrt_check(!seen.contains(&o.get_name().to_string()), "C08 object names stay unique within their namespace");
+        seen.push(o.get_name().to_string());
+    }
+    let mut seen2: Vec<String> = Vec::new();
+    for o in m.typedefs().iter() {
+        vrt_check(!seen2.contains(&o.get_name().to_string()), "C08 typedef names stay unique within their namespace");
+        seen2.push(o.get_name().to_string());
+    }
+    let mut seen3: Vec<String> = Vec::new();
+    for o in m.compu_tabs().iter() {
+        vrt_check(!seen3.contains(&o.get_name().to_string()), "C08 conversion table names stay unique within their namespace");
+        seen3.push(o.get_name().to_string());
+    }
+}
+
+/// scenario 0: every name conflicts (same names, different content) -> all of B is renamed to X.MERGE and must keep its
+/// reference structure; 1: identical copy; 2: disjoint names; 3: merge into an empty module; 4: merge an empty module
+pub(crate) fn h_merge_scenarios() {
+    let sc = vrt_choice(5);
+    let empty = "ASAP2_VERSION 1 71 /begin PROJECT p \"\" /begin MODULE m \"\" /end MODULE /end PROJECT";
+    let a_text = match sc { 3 => String::from(empty), _ => expand(MERGE_T, "", "1") };
+    let b_text = match sc { 0 => expand(MERGE_T, "", "2"), 1 => expand(MERGE_T, "", "1"), 2 => expand(MERGE_T, "_b", "2"), 3 => expand(MERGE_T, "", "2"), _ => String::from(empty) };
+    let mut a = load_ok(&a_text);
+    let mut b = load_ok(&b_text);
+    let a_before = a.clone();
+    let b_before = b.clone();
+    vrt_check(xref_errors(&a) == 0 && xref_errors(&b) == 0, "C09 harness templates are consistent");
+    a.merge_modules(&mut b);
+    let res = &a.project.module[0];
+    // C08: A is conserved
+    contains_all(res, &a_before.project.module[0]);
+    unique_names(res);
+    match sc {
+        0 => {
+            let exp = load_ok(&expand(MERGE_T, ".MERGE", "2"));
+            contains_all(res, &exp.project.module[0]);
+            vrt_check(res.measurement.len() == 4 && res.unit.len() == 4 && res.compu_method.len() == 2 && res.characteristic.len() == 4, "C08 conflicting elements are added once under a fresh name");
+        }
+        1 | 4 => vrt_check(a == a_before, "C08 merging an identical copy / an empty module changes nothing"),
+        2 => {
+            contains_all(res, &b_before.project.module[0]);
+            vrt_check(res.measurement.len() == 4 && res.unit.len() == 4, "C08 new names are added");
+        }
+        _ => {
+            contains_all(res, &b_before.project.module[0]);
+            vrt_check(res.measurement.len() == 2 && res.unit.len() == 2 && res.compu_method.len() == 1, "C08 merging into an empty module yields B's content");
+        }
+    }
+    vrt_check(xref_errors(&a) == 0, "C09 merging two consistent files never produces a dangling reference");
+}
+
+/// FUNCTION / GROUP are merged by name, USER_RIGHTS / VARIANT_CODING are moved: their references must follow the renaming
+pub(crate) fn h_merge_named_union() {
+    let sc = vrt_choice(2);
+    // A has conflicting ms / ch / rl (so B's get renamed); sc 1: A additionally has its own fn1 / g1 to be united
+    let mut a_text = expand(MERGE_T2, "", "1");
+    if sc == 0 {
+        // A without FUNCTION / GROUP / USER_RIGHTS / VARIANT_CODING
+        a_text = String::from("ASAP2_VERSION 1 71 /begin PROJECT p \"\" /begin MODULE m \"\"\n/begin MEASUREMENT ms \"1\" UBYTE NO_COMPU_METHOD 0 0 0 255 /end MEASUREMENT\n/begin RECORD_LAYOUT rl FNC_VALUES 1 UBYTE ROW_DIR DIRECT /end RECORD_LAYOUT\n/begin CHARACTERISTIC ch \"1\" VALUE 0 rl 0 NO_COMPU_METHOD 0 255 /end CHARACTERISTIC\n/end MODULE /end PROJECT");
+    }
+    let mut a = load_ok(&a_text);
+    let mut b = load_ok(&expand(MERGE_T2, "", "2"));
+    vrt_check(xref_errors(&a) == 0 && xref_errors(&b) == 0, "C09 harness templates are consistent");
+    a.merge_modules(&mut b);
+    vrt_soft_check(xref_errors(&a) == 0, "C09 merging two consistent files never produces a dangling reference");
+    let m = &a.project.module[0];
+    vrt_soft_check(m.measurement.contains_key("ms.MERGE") && m.characteristic.contains_key("ch.MERGE"), "C08 conflicting objects are added under a fresh name");
+    let f = m.function.get("fn1").unwrap();
+    let has = |l: &Vec<String>, n: &str| l.iter().any(|x| x == n);
+    vrt_soft_check(has(&f.in_measurement.as_ref().unwrap().identifier_list, "ms.MERGE"), "C09 FUNCTION IN_MEASUREMENT from B designates B's (renamed) measurement");
+    vrt_soft_check(has(&f.loc_measurement.as_ref().unwrap().identifier_list, "ms.MERGE"), "C09 FUNCTION LOC_MEASUREMENT from B designates B's (renamed) measurement");
+    vrt_soft_check(has(&f.out_measurement.as_ref().unwrap().identifier_list, "ms.MERGE"), "C09 FUNCTION OUT_MEASUREMENT from B designates B's (renamed) measurement");
+    vrt_soft_check(has(&f.def_characteristic.as_ref().unwrap().identifier_list, "ch.MERGE"), "C09 FUNCTION DEF_CHARACTERISTIC from B designates B's (renamed) characteristic");
+    vrt_soft_check(has(&f.ref_characteristic.as_ref().unwrap().identifier_list, "ch.MERGE"), "C09 FUNCTION REF_CHARACTERISTIC from B designates B's (renamed) characteristic");
+    let g = m.group.get("g1").unwrap();
+    vrt_soft_check(has(&g.ref_characteristic.as_ref().unwrap().identifier_list, "ch.MERGE"), "C09 GROUP REF_CHARACTERISTIC from B designates B's (renamed) characteristic");
+    vrt_soft_check(has(&g.ref_measurement.as_ref().unwrap().identifier_list, "ms.MERGE"), "C09 GROUP REF_MEASUREMENT from B designates B's (renamed) measurement");
+    if sc == 0 {
+        let vc = m.variant_coding.as_ref().unwrap();
+        vrt_soft_check(vc.var_criterion[0].var_measurement.as_ref().unwrap().name == "ms.MERGE", "C09 VAR_MEASUREMENT from B designates B's (renamed) measurement");
+        vrt_soft_check(vc.var_characteristic[0].get_name() == "ch.MERGE", "C09 VAR_CHARACTERISTIC from B designates B's (renamed) characteristic");
+        vrt_soft_check(vc.var_characteristic[0].criterion_name_list.len() == 1 && vc.var_characteristic[0].criterion_name_list[0] == "crit", "C09 criterion names of VAR_CHARACTERISTIC are not object references and stay unchanged");
+        vrt_soft_check(m.user_rights.len() == 1, "C08 USER_RIGHTS from B is represented");
+    }
+}
+
+/// fresh names: X conflicts; X.MERGE / X.MERGE2 may already exist in A and/or B (symbolic)
+pub(crate) fn h_merge_unique_name() {
+    let a1 = vrt_any_bool();
+    let a2 = vrt_any_bool();
+    let b1 = vrt_any_bool();
+    let b2 = vrt_any_bool();
+    let unit = |name: &str, lid: &str| -> String {
+        let mut s = String::from("/begin UNIT ");
+        s.push_str(name); s.push_str(" \""); s.push_str(lid); s.push_str("\" \"\" DERIVED /end UNIT\n");
+        s
+    };
+    let head = "ASAP2_VERSION 1 71 /begin PROJECT p \"\" /begin MODULE m \"\"\n";
+    let mut at = String::from(head);
+    at.push_str(&unit("x", "1"));
+    if a1 { at.push_str(&unit("x.MERGE", "1")); }
+    if a2 { at.push_str(&unit("x.MERGE2", "1")); }
+    at.push_str("/end MODULE /end PROJECT");
+    let mut bt = String::from(head);
+    bt.push_str(&unit("x", "2"));
+    if b1 { bt.push_str(&unit("x.MERGE", "2")); }
+    if b2 { bt.push_str(&unit("x.MERGE2", "2")); }
+    bt.push_str("/end MODULE /end PROJECT");
+    let mut a = load_ok(&at);
+    let mut b = load_ok(&bt);
+    let a_before = a.clone();
+    let nb = b.project.module[0].unit.len();
+    a.merge_modules(&mut b);
+    let m = &a.project.module[0];
+    for e in a_before.project.module[0].unit.iter() {
+        vrt_check(m.unit.get(e.get_name()) == Some(e), "C08 every element of A is kept unchanged");
+    }
+    // every unit of B is represented: count units whose long identifier is "2"
+    let mut from_b = 0;
+    let mut names: Vec<String> = Vec::new();
+    for u in m.unit.iter() {
+        if u.long_identifier == "2" { from_b += 1; }
+        vrt_check(!names.contains(&u.get_name().to_string()), "C08 names stay unique within the namespace");
+        names.push(u.get_name().to_string());
+    }
+    vrt_check(from_b == nb, "C08 every named element of B is represented exactly once in the result");
+    vrt_check(m.unit.len() == a_before.project.module[0].unit.len() + nb, "C08 conflicting elements are added, none is lost or duplicated");
+}
+
+/// the same name in different kinds of one shared namespace
+pub(crate) fn h_merge_cross_kind() {
+    let head = "ASAP2_VERSION 1 71 /begin PROJECT p \"\" /begin MODULE m \"\"\n/begin RECORD_LAYOUT rl FNC_VALUES 1 UBYTE ROW_DIR DIRECT AXIS_PTS_X 1 UBYTE INDEX_INCR DIRECT /end RECORD_LAYOUT\n";
+    let obj = |k: u32| -> &'static str {
+        match k {
+            0 => "/begin MEASUREMENT x \"\" UBYTE NO_COMPU_METHOD 0 0 0 255 /end MEASUREMENT\n",
+            1 => "/begin CHARACTERISTIC x \"\" VALUE 0 rl 0 NO_COMPU_METHOD 0 255 /end CHARACTERISTIC\n",
+            2 => "/begin AXIS_PTS x \"\" 0 NO_INPUT_QUANTITY rl 0 NO_COMPU_METHOD 2 0 255 /end AXIS_PTS\n",
+            3 => "/begin COMPU_TAB x \"\" TAB_INTP 1 1 1 /end COMPU_TAB\n",
+            4 => "/begin COMPU_VTAB x \"\" TAB_VERB 1 1 \"x\" /end COMPU_VTAB\n",
+            5 => "/begin TYPEDEF_MEASUREMENT x \"\" UBYTE NO_COMPU_METHOD 0 0 0 255 /end TYPEDEF_MEASUREMENT\n",
+            _ => "/begin TYPEDEF_AXIS x \"\" NO_INPUT_QUANTITY rl 0 NO_COMPU_METHOD 2 0 255 /end TYPEDEF_AXIS\n",
+        }
+    };
+    let ns = vrt_choice(3); // 0 objects, 1 tables, 2 typedefs
+    let (ka, kb) = match ns { 0 => (vrt_choice(3), vrt_choice(3)), 1 => (3 + vrt_choice(2), 3 + vrt_choice(2)), _ => (5 + vrt_choice(2), 5 + vrt_choice(2)) };
+    let mut at = String::from(head); at.push_str(obj(ka)); at.push_str("/end MODULE /end PROJECT");
+    let mut bt = String::from(head); bt.push_str(obj(kb)); bt.push_str("/end MODULE /end PROJECT");
+    let mut a = load_ok(&at);
+    let mut b = load_ok(&bt);
+    a.merge_modules(&mut b);
+    let m = &a.project.module[0];
+    unique_names(m);
+    let total = m.objects().len() + m.compu_tabs().len() + m.typedefs().len();
+    if ka == kb {
+        vrt_check(total == 1, "C08 identical elements are shared");
+    } else {
+        vrt_check(total == 2, "C08 a same-name element of another kind in the same namespace is added under a fresh name");
+    }
+}
